@@ -229,6 +229,14 @@ def run_c07(F, R, tier):
     e_trend.net_rules(F, R, tier)
     # |CoG| <= (N-1)/2 for positive inputs follows from weights k in [1, n] with the same values in numerator and denominator
     e_trend.cog_rules(F, R, tier)
+    # the bound itself: with weights k = 1..n on the SAME positive values in numerator and denominator (COG-W), the centre term
+    # (n+1)/2 with n the current fill (COG-N, COG-C), the reported value being exactly that expression (COG-O) and 0 for a zero
+    # denominator (COG-G):  Σk·x/Σx ∈ [1, n]  for positive x, hence  |CoG| <= (n-1)/2  in real arithmetic
+    cog = {o[0]: o[2] for o in R.obligations if o[0].startswith('COG-') and o[1].startswith('CenterOfGravity')}
+    need = ('COG-W', 'COG-N', 'COG-C', 'COG-O', 'COG-G')
+    okb = all(cog.get(r_) for r_ in need)
+    R.ob('RG-cog', 'CenterOfGravity', okb, '|CoG| <= (n−1)/2 for positive inputs follows from the verified weights, centre term, guard and output identity'
+         if okb else 'the structure the bound rests on is not verified: %s' % [r_ for r_ in need if not cog.get(r_)])
     # Min <= Sma, Alma <= Max over the same window: exact window + mirrored accumulators (convex weights), in real arithmetic
     from .e_window import check_windows, check_accumulators
     check_windows(F, R, ['Sma', 'Alma', 'Min', 'Max'], 'W1')
@@ -239,5 +247,5 @@ def run_c07(F, R, tier):
     pfe_rule(F, R, tier)
     R.floor('RG-out', 5)
     R.floor('RG-clip', 2)
-    R.decline('Rsi, MyRSI, HLNormalizer, CTI, BinaryEntropy, Vsct, CenterOfGravity and Drawdown < 1 (and the f64 half of Min <= Sma/Alma <= Max) rest on non-negativity '
+    R.decline('MyRSI, CTI, BinaryEntropy, Vsct and Drawdown < 1 (and the f64 half of the Min <= Sma/Alma <= Max and CenterOfGravity bounds) rest on non-negativity '
               'of running differences of sums or on "a few ulps": value/rounding properties that no domain here can bound — declined')
